@@ -30,7 +30,7 @@ def check(ctx):
     mc.append(dict(cfg="MC_Faults_current.cfg", expected="counterexample", found=r["error"]))
     drv = build_harness(ctx)
     trace = os.path.join(ctx.scratch, "faults.ndjson")
-    run_driver(ctx, drv, ["faults", "-seed", str(ctx.seed), "-n", "150" if quick else "2500", "-budget", "8" if quick else "40", "-out", trace], timeout=3000)
+    run_driver(ctx, drv, ["faults", "-seed", str(ctx.seed), "-n", "250" if quick else "3000", "-budget", "8" if quick else "40", "-out", trace], timeout=3000)
     ident = lambda ln: None
     # every event is its own case; identify by line number
     lines = open(trace).read().splitlines(True)
